@@ -24,7 +24,9 @@ DRIVERS = ["driver_aave"]
 RULE = ("[aave] for each operation and each rejection cause the model distinguishes, an operation is crafted in a randomly built portfolio so "
         "that exactly that precondition fails; bucket = (operation, model rejection cause, argument class)")
 TRUSTED = ["[aave] the rejected-call theorems hold for every arithmetic context"]
-ASSUMPTIONS = ["[aave] change_collateral: the health-factor evaluation itself cannot raise (coherent caches, bar data covers held tokens — C13)",
+ASSUMPTIONS = ["[aave] change_collateral: no assumption (C04_aave_changeCollateral_reject_noop holds for every state and bar; the causes "
+               "hfRaisesNoPrice / NoRisk / NoStatus make the health-factor evaluation itself raise between the flip and the check, "
+               "cannotCollateral switches on a token the risk table does not admit)",
                "[aave] update(): a loop of atomic _do_liquidate steps (C04_aave_do_liquidate_atomic); on a well-formed bar and state (Aave.updWF, "
                "evaluated by the harness on the implementation's state and by the driver on the model's for every update() of this run) it "
                "completes (C04_aave_update_completes, exact arithmetic; never a DemeterError under monotone rounding); on malformed bars "
@@ -37,7 +39,8 @@ CAUSES = {
     "withdraw": ["closed", "zero", "negative", "unknown", "notSupplied", "exceed", "hfLow"],
     "borrow": ["closed", "zero", "negative", "unknown", "disabled", "collZero", "ltvZero", "hfNotAbove", "cannotCover", "noneNoCollateral"],
     "repay": ["closed", "zero", "negative", "unknown", "noDebt", "exceed", "insufficient", "walletUnknown", "notSupplied", "notCollateral"],
-    "changeCollateral": ["closed", "notSupplied", "hfLow"],
+    "changeCollateral": ["closed", "notSupplied", "hfLow", "cannotCollateral", "hfRaisesNoPrice", "hfRaisesNoRisk", "hfRaisesNoStatus",
+                         "zeroIndex"],
     "update": ["closed"],
     "read": ["getSupply", "getBorrow", "maxBorrowNoCollateral"],
 }
@@ -187,6 +190,34 @@ def craft(rng, m, b, env, kind, cause):
             # the biggest collateral: switching it off is the most likely to sink the health factor
             t = max(c, key=lambda x: sup[x].base_amount * idx(x, "liqIdx") * env["price"][x] * env["risk"][x]["lt"])
             return {"kind": kind, "tok": t, "coll": False}
+        if cause == "cannotCollateral":
+            # switching ON a supply whose token the risk table does not admit as collateral (supply(..., collateral=True) refuses it too)
+            c = [t for t in sup if (not sup[t].collateral) and not env["risk"][t]["canColl"]]
+            return {"kind": kind, "tok": rng.choice(c), "coll": True} if c else None
+        if cause in ("hfRaisesNoPrice", "hfRaisesNoRisk", "hfRaisesNoStatus", "zeroIndex"):
+            # switching a collateral OFF in a bar whose data lacks a row the health-factor evaluation needs: the evaluation itself raises
+            # (KeyError) between the flip and the check — the flag must be written back all the same
+            c = [t for t in sup if sup[t].collateral]
+            if not c:
+                return None
+            t = rng.choice(c)
+            others = [x for x in c if x != t]
+            if cause == "hfRaisesNoPrice":
+                x = rng.choice(others + list(bor)) if (others or bor) else None
+                patch = {"dropPrice": x}
+            elif cause == "hfRaisesNoRisk":
+                x = rng.choice(others) if others else None
+                patch = {"dropRisk": x}
+            elif cause == "hfRaisesNoStatus":
+                held = [y for y in list(sup) + list(bor) if y != t]
+                x = rng.choice(held) if held else None
+                patch = {"dropStatus": x}
+            else:
+                x = rng.choice(list(sup) + list(bor))
+                patch = {"zeroIndex": x}
+            if x is None:
+                return None
+            return {"kind": kind, "tok": t, "coll": False, "_env": patch}
     if kind == "read":
         if cause == "getSupply":
             c = [t for t in toks + [A.UNKNOWN] if t not in sup]
@@ -197,6 +228,22 @@ def craft(rng, m, b, env, kind, cause):
         if cause == "maxBorrowNoCollateral":
             return {"kind": "read", "view": "maxBorrowAmount", "tok": rng.choice(toks)} if not any(v.collateral for v in sup.values()) else None
     return None
+
+
+def patch_env(env, patch):
+    """the same bar with one row removed (or one token's indices zeroed): data the code trips over in the middle of a call"""
+    e = dict(env, status=dict(env["status"]), price=dict(env["price"]), risk=dict(env["risk"]), tokens=list(env["tokens"]))
+    if "dropPrice" in patch:
+        e["price"].pop(patch["dropPrice"], None)
+    if "dropRisk" in patch:
+        e["risk"].pop(patch["dropRisk"], None)
+    if "dropStatus" in patch:
+        e["status"].pop(patch["dropStatus"], None)
+        e["tokens"] = [t for t in e["tokens"] if t != patch["dropStatus"]]
+    if "zeroIndex" in patch:
+        t = patch["zeroIndex"]
+        e["status"][t] = dict(e["status"][t], liqIdx=D(0), varIdx=D(0))
+    return e
 
 
 def snapshot(m, b, actions, toks):
@@ -243,7 +290,10 @@ def run_sequence(ctx: Ctx, rng, reqs, meta, exact_env):
             ctx.count(f"aave_not_constructible:{kind}:{cause}")
             continue
         closed = op.pop("_closed", False)
-        env_used = dict(env, isOpen=not closed)
+        patch = op.pop("_env", None)
+        env_used = dict(patch_env(env, patch) if patch else env, isOpen=not closed)
+        if patch:
+            A.install_env(m, env_used)
         m.is_open = not closed
         # sometimes warm the caches first: a rejected call must not disturb what they hold either
         if rng.random() < 0.5:
@@ -254,6 +304,8 @@ def run_sequence(ctx: Ctx, rng, reqs, meta, exact_env):
         outcome, result = A.apply_op(m, op)
         after = snapshot(m, b, actions, env["tokens"])
         s1 = A.dump_state(m, b, actions, n0)
+        if patch:
+            A.install_env(m, env)
         m.is_open = True
         case = {"env": A.env_json(env_used), "state": s0, "op": op}
         check_reject(ctx, before, after, op, outcome, case)
